@@ -223,8 +223,8 @@ def iter_json_dump(path, chunk):
 
 def replay_cfg_space(ctx, book, space, dump, variant, full_len):
     """every enumerated configuration on the real dulwich writer/reader; the real git on every case up to length
-    full_len, on every 8th longer one, and on every case where dulwich's bytes are not the model's (quick tier;
-    the thorough tier runs git on everything).  -> (number of cases, a sample case)"""
+    full_len (quick 3, thorough 4), on every 8th (quick) / 4th (thorough) longer one, and on every case where
+    dulwich's bytes are not the model's.  -> (number of cases, a sample case)"""
     real_fail = {c: {} for c in CLAUSES}
     model_fail = {c: set() for c in CLAUSES}
     refused = total = 0
@@ -265,7 +265,7 @@ def _replay_cfg_chunk(ctx, book, space, cases, real_fail, model_fail, full_len, 
         outs.append(o)
     # which cases go through the git binary
     for o, x, m in zip(outs, xs, mdw):
-        o["git"] = len(x) <= full_len or o["dw"] != m or (int.from_bytes(hashlib.sha1(x).digest()[:4], "big") + ctx.seed) % 8 == 0
+        o["git"] = len(x) <= full_len or o["dw"] != m or (int.from_bytes(hashlib.sha1(x).digest()[:4], "big") + ctx.seed) % ctx.pick(8, 4) == 0
     gi = [i for i, o in enumerate(outs) if o["git"]]
     stats["git_ran"] += len(gi)
     stats["dulwich_only"] += len(outs) - len(gi)
@@ -305,7 +305,7 @@ def _replay_cfg_chunk(ctx, book, space, cases, real_fail, model_fail, full_len, 
             m_dr = R.dulres_from_json(c["dr"][0]) if c["dr"] else (True, cfg)
             if (ok, rc) != m_dr:
                 book.add_drift(f"{space}/DulRead", f"file {o['dw']!r}: real {o['dr']!r}, model {m_dr!r}")
-            dg = R.dul_read(bytes(c["gw"]))
+            dg = o["dr"] if bytes(c["gw"]) == o["dw"] else R.dul_read(bytes(c["gw"]))
             m_dg = R.dulres_from_json(c["dg"][0]) if c["dg"] else (True, cfg)
             if (dg[0], dg[1]) != m_dg:
                 book.add_drift(f"{space}/DulRead(git)", f"file {bytes(c['gw'])!r}: real {dg!r}, model {m_dg!r}")
@@ -533,7 +533,8 @@ def judge_records(ctx, book, oracle, records, meta, verdicts, variant):
         if space == "cfg":
             ctx.violation(f"{SITE['cfg']}|{cl}|config={x.hex()}", f"{cl} fails for configuration {cfg_show(sm)} ({m['src']}): {detail}",
                           {"kind": "case", "space": "cfg", "clause": cl, "cfg": cfg_hex(sm), "detail": detail,
-                           "model_predicts_failure": predicted, "variant": variant, "history": m.get("history")})
+                           "model_predicts_failure": predicted, "variant": variant, "history": m.get("history"),
+                           "mixed": m.get("mixed", False)})
         else:
             report(ctx, space, cl, x, sm, f"(shrunk from {cfg_show(m['cfg'])}, {m['src']}) {detail}", predicted, variant)
     return nfail
@@ -589,7 +590,7 @@ def random_cases(ctx, n):
     return got
 
 
-def execute_cfgs(ctx, cfgs, histories=None, fresh=True):
+def execute_cfgs(ctx, cfgs, histories=None, initial=None):
     """the full real pipeline for arbitrary configurations; git reads are batched with bisection"""
     outs = []
     for cfg in cfgs:
@@ -603,7 +604,7 @@ def execute_cfgs(ctx, cfgs, histories=None, fresh=True):
     st = {}
     grs = R.git_read_smart(ctx.scratch, [o["dw"] if o["dw"] is not None else b"[" for o in outs], [o["dw"] is not None for o in outs], st)
     hist = histories if histories is not None else [R.git_add_history(c) for c in cfgs]
-    gws = R.git_ops(ctx.scratch, [h or [] for h in hist])
+    gws = R.git_ops(ctx.scratch, [h or [] for h in hist], initial)
     ggs = R.git_read_smart(ctx.scratch, gws, [True] * len(gws), st)
     for o, g, h, gw, gg in zip(outs, grs, hist, gws, ggs):
         o["gr"] = g if o["dw"] is not None else (False, [])
@@ -667,22 +668,28 @@ def git_op(act, args):
     return [b"--unset-all", b"--", key]
 
 
-def ops_tlc(d, variant, mi, workers):
+def ops_tlc(d, variant, mi, workers, coverage=False):
     cfgp = os.path.join(d, "ops.cfg")
     tlc.write_cfg(cfgp, spec="Spec", constants=consts(variant, MaxItems=mi, NSec=4, NKey=3, NVal=2),
                   invariants=["InvRoundTrip", "InvInteropDG"], properties=["RewriteIsIdentity"])
     dot = os.path.join(d, "ops.dot")
-    return tlc.run("ConfigOps.tla", cfgp, workers=workers, dump_dot=dot, timeout=1500), dot
+    return tlc.run("ConfigOps.tla", cfgp, workers=workers, dump_dot=dot, timeout=1500, coverage=coverage), dot
 
 
 def ops_phase(ctx, book, fut, mi, variant, tid0):
     from dulwich.config import ConfigFile
     res, dot = fut.result()
     ctx.add_tlc(f"ConfigOps (MaxItems={mi}, 4 sections x 3 keys x 2 values; set/add/remove/rewrite)", res)
+    if res.coverage:
+        dead = [a for a in ("Set", "Add", "Remove", "Rewrite") if res.coverage.get(a, (0, 0))[1] == 0]
+        if dead:
+            raise MachineryError(f"ConfigOps: actions never taken (vacuous model): {dead}")
     ctx.log("ConfigOps model checked")
     g = tlc.load_dot(dot)
     ctx.log("graph loaded")
     init = g.init[0]
+    for es in g.edges.values():
+        es.sort()               # deterministic breadth-first tree: histories are named by their labels only
     parent, order = {init: None}, [init]
     for n in order:
         for lab, dst in g.edges.get(n, []):
@@ -763,7 +770,10 @@ def ops_phase(ctx, book, fut, mi, variant, tid0):
     ctx.validated(nedges)
     # every state as a recorded execution (real files through write_to_path/from_path), a sample with git-driven histories
     nodes = [n for n in order if node_real[n][0]]
-    nsample = ctx.pick(300, 6000)
+    if ctx.quick:       # quick tier: a sample of the states is recorded (all transitions were replayed above)
+        pos = {n: i for i, n in enumerate(order)}
+        nodes = sorted(ctx.rng.sample(nodes, min(1500, len(nodes))), key=pos.get)
+    nsample = ctx.pick(200, 6000)
     chosen = set(ctx.rng.sample(nodes, min(nsample, len(nodes))))
     cfgs = [node_real[n][0] for n in nodes]
     hists = [([h for h in (git_op(*lab(pl)) for pl in node_real[n][1]) if h] if n in chosen else None) for n in nodes]
@@ -778,7 +788,24 @@ def ops_phase(ctx, book, fut, mi, variant, tid0):
             book.add_spec("ops/git-history", f"{node_real[n][1]}: git reads {o['gg']!r}, ConfigOps state {cfg_show(node_cfg(g.nodes[n]))}")
         records.append(trace_record(tid, cfg, o, fresh=False))
         meta[tid] = {"src": "ops", "cfg": cfg, "o": o, "history": node_real[n][1]}
-    ctx.cov["ops_replay"] = {"states": len(g.nodes), "transitions": g.n_edges(), "transitions_replayed": nedges,
+    # mixed histories: dulwich writes the state before the last operation, git performs the last operation on that file
+    byn = dict(zip(nodes, outs))
+    mixed = [n for n in nodes if n in chosen and parent[n] is not None and lab(parent[n][1])[0] != "Rewrite"]
+    gws = R.git_ops(ctx.scratch, [[git_op(*lab(parent[n][1]))] for n in mixed],
+                    [(byn[parent[n][0]]["dw"] if parent[n][0] in byn else
+                      (R.dul_write(node_real[parent[n][0]][0]) if node_real[parent[n][0]][0] else b"")) for n in mixed])
+    st = {}
+    ggs = R.git_read_smart(ctx.scratch, gws, [True] * len(gws), st)
+    ctx.cov["git_processes"] = ctx.cov.get("git_processes", 0) + st.get("git_read_processes", 0) + len(mixed)
+    for n, gw, gg in zip(mixed, gws, ggs):
+        tid += 1
+        ctx.count()
+        o = dict(byn[n], gw=gw, dg=R.dul_read(gw), gg=gg)
+        if not (gg[0] and R.meaning(gg[1]) == means(node_cfg(g.nodes[n]))):
+            book.add_spec("ops/git-mixed", f"{node_real[n][1]}: git reads {gg!r}, ConfigOps state {cfg_show(node_cfg(g.nodes[n]))}")
+        records.append(trace_record(tid, node_real[n][0], o, fresh=False))
+        meta[tid] = {"src": "ops-mixed", "cfg": node_real[n][0], "o": o, "history": node_real[n][1], "mixed": True}
+    ctx.cov["ops_replay"] = {"mixed_histories": len(mixed), "states": len(g.nodes), "transitions": g.n_edges(), "transitions_replayed": nedges,
                              "mismatches": nmis, "histories_with_wrong_meaning": len(bad), "states_recorded": len(records), "git_driven_histories": len(chosen)}
     ctx.sample({"kind": "history", "ops": node_real[order[len(order) // 2]][1], "state": cfg_show(node_real[order[len(order) // 2]][0])})
     return records, meta, tid
@@ -824,7 +851,7 @@ def run(ctx):
     with cf.ThreadPoolExecutor(3) as pool:
         gens = {sp: pool.submit(tlc_cases, d, sp, ml, variant, ctx.pick(4, 6) if sp == "val" else ctx.pick(2, 1)) for sp, ml in plan}
         mi = ctx.pick(2, 3)
-        opsfut = pool.submit(ops_tlc, d, variant, mi, ctx.pick(2, 6))
+        opsfut = pool.submit(ops_tlc, d, variant, mi, ctx.pick(2, 6), not ctx.quick)
         mc = model_check(ctx, d, variant, pool)
         # 1. the git automaton first, on hand-written files (dulwich's writer is not involved)
         for sp, ml in plan:
@@ -843,7 +870,7 @@ def run(ctx):
             ml = dict(plan)[sp]
             res, dump = gens[sp].result()
             ctx.add_tlc(f"ConfigCases[{sp}<={ml}] tree variant: DulWrite/DulRead/GitRead/GitWrite per case", res)
-            n, c = replay_cfg_space(ctx, book, sp, dump, variant, ctx.pick(3, 99))
+            n, c = replay_cfg_space(ctx, book, sp, dump, variant, ctx.pick(3, 4))
             ctx.log(f"{sp}<={ml}: {n} configurations through dulwich and git  {ctx.cov['spaces'][sp]}")
             ctx.sample({"kind": sp, KIND[sp]: repr(bytes(c["x"])), "dulwich_writes": repr(bytes(c["dw"])), "git_writes": repr(bytes(c["gw"]))})
         finish_model_check(ctx, mc)
@@ -853,7 +880,7 @@ def run(ctx):
     # 4. inputs TLC does not enumerate
     extra = sweep_cases()
     nsweep = len(extra)
-    extra += random_cases(ctx, ctx.pick(400, 6000))
+    extra += random_cases(ctx, ctx.pick(300, 6000))
     ctx.log(f"executing {len(extra)} more configurations (byte sweep, random)")
     outs = execute_cfgs(ctx, extra)
     ctx.log("executed")
@@ -884,7 +911,7 @@ def run(ctx):
         "section names without '.', no include/includeIf sections, no NUL; subsections without LF",
         "the model bound to the tree is the declared variant selected by five probes of the public API (see coverage.model_variant)",
     ]
-    return ctx.finish(exhaustive=True)
+    return ctx.finish(exhaustive=True)      # every case of every enumerated space was executed on the real dulwich code
 
 
 # --------------------------------------------------------------------------- replay
@@ -918,11 +945,17 @@ def replay(ctx, path):
     cfg = cfg_unhex(obj["cfg"])
     clause = obj.get("clause")
     print(f"replay {path}\n  signature: {obj.get('signature')}\n  configuration: {cfg_show(cfg)}")
-    hist = None
+    hist = initial = None
     if obj.get("history"):
         hist = [[h for h in (git_op(*parse_label(l)) for l in obj["history"]) if h]]
-        print(f"  history: {obj['history']}")
-    o = execute_cfgs(ctx, [cfg], hist)[0]
+        print(f"  history: {obj['history']}" + ("  (dulwich writes the state before the last operation, git performs the last one)" if obj.get("mixed") else "  (performed by git)"))
+        if obj.get("mixed"):
+            from dulwich.config import ConfigFile
+            c = ConfigFile()
+            for l in obj["history"][:-1]:
+                c = apply_op(c, *parse_label(l), os.path.join(ctx.tmpdir("ops"), "config"))
+            initial, hist = [R.dul_write_obj(c)], [hist[0][-1:]]
+    o = execute_cfgs(ctx, [cfg], hist, initial)[0]
     print(f"  dulwich writes   {o['dw']!r}")
     print(f"  dulwich reads    {(cfg_show(o['dr'][1]) if o['dr'][0] else 'ERROR ' + o['dr'][2])}")
     print(f"  git reads        {o['gr'][1] if o['gr'][0] else 'ERROR (git rejects the file)'}")
